@@ -266,6 +266,14 @@ def rule_E2_pipeline(tree: Tree) -> RuleResult:
                               or (len(decs[0].args) > 1 and try_fold(decs[0].args[1]) in ("replace", "ignore", "surrogateescape", "backslashreplace")))
     r.ob(okd, Finding("E2b", "main:run:dsb-decode-tolerant", "the DSB payload must be decoded with an error handler (errors='replace'): one non-ASCII byte anywhere in the block "
                                                              "otherwise discards all of its secrets", run.module.line(run.node)))
+    # the file is handed to the parser as a whole (`get_keys_from_string(file.read())`): a line-by-line reader with its own stop condition (first blank line,
+    # first comment) would drop the lines behind it, although blank and foreign lines may stand anywhere in a key log
+    r.instances += 1
+    rkf = tree.func("keylog_reader", "read_keylog_from_file")
+    rets = [src(n.value) for n in body_walk(rkf.node) if isinstance(n, ast.Return) and n.value is not None]
+    loops = [n for n in body_walk(rkf.node) if isinstance(n, (ast.For, ast.While))]
+    r.ob(rets == ["get_keys_from_string(file.read())"] and not loops, Finding("E2b", "keylog_reader:read_keylog_from_file:whole-file",
+                                                                              f"read_keylog_from_file must return get_keys_from_string(file.read()); found returns {rets}, {len(loops)} loop(s)", rkf.module.line(rkf.node)))
     # both ingestion paths in main.run go through get_keys_from_string
     r.instances += 1
     ext = []
